@@ -164,6 +164,8 @@ impl RollState {
     }
 
     fn age_rotation_necessary(age: Age, created_at: &DateTime<Local>) -> bool {
+        #[cfg(feature = "verif_hooks")]
+        use crate::verif_hooks::VLocal as Local;
         let now = Local::now();
         match age {
             Age::Day => {
@@ -457,6 +459,8 @@ impl State {
         &mut self,
         force: bool,
     ) -> Result<(), FlexiLoggerError> {
+        #[cfg(feature = "verif_hooks")]
+        use crate::verif_hooks::VLocal as Local;
         if let Inner::Active(
             Some(ref mut rotation_state),
             ref mut current_write,
@@ -673,6 +677,10 @@ fn open_log_file(
 }
 
 fn get_creation_timestamp(path: &Path) -> DateTime<Local> {
+    #[cfg(feature = "verif_hooks")]
+    if let Some(t) = crate::verif_hooks::creation_time(path) {
+        return t;
+    }
     // On windows, we know that try_get_creation_date() returns a result, but it is wrong.
     if cfg!(target_os = "windows") {
         get_current_timestamp()
@@ -693,6 +701,8 @@ fn try_get_modification_timestamp(path: &Path) -> Result<DateTime<Local>, FlexiL
     Ok(d.into())
 }
 fn get_current_timestamp() -> DateTime<Local> {
+    #[cfg(feature = "verif_hooks")]
+    use crate::verif_hooks::VLocal as Local;
     Local::now()
 }
 
